@@ -46,7 +46,7 @@ Record hstate := {
   h_db : list (N * N);              (* (sequence, update id), retained part *)
   h_committed : list N;             (* ghost: every update ever committed, in commit order *)
   h_seq : N;                        (* bucket sequence (durable) *)
-  h_lastseq : N;
+  h_lastseq : N;                    (* bolt: lastSeq. local transport: ghost, number of updates dispatched *)
   h_index : list nat;               (* indexed subscribers, in insertion order *)
   h_subs : list hsub;
   h_acked : list N;                 (* ghost: publishes answered with success *)
@@ -143,7 +143,9 @@ Section H.
         else
           {| h_persistent := false; h_close := h_close st;
              h_db := h_db st; h_committed := h_committed st ++ [u];
-             h_seq := h_seq st; h_lastseq := h_lastseq st; h_index := h_index st; h_subs := h_subs st; h_acked := h_acked st;
+             (* local transport: lastseq is ghost here - the number of updates dispatched so far, i.e. the position in the
+                dispatch order at which a subscriber registers (the code keeps no such counter and nothing reads it) *)
+             h_seq := h_seq st; h_lastseq := h_lastseq st + 1; h_index := h_index st; h_subs := h_subs st; h_acked := h_acked st;
              h_events := h_events st; h_gauge := h_gauge st; h_subs_total := h_subs_total st;
              h_updates_total := h_updates_total st; h_size := h_size st |} in
       (set_subs st1 (fan_out (h_subs st1) (h_index st1) u), PubOk).
@@ -338,7 +340,7 @@ Section H.
     {| h_persistent := h_persistent st; h_close := 0%nat;
        h_db := if h_persistent st then h_db st else [];
        h_committed := h_committed st; h_seq := if h_persistent st then h_seq st else 0;
-       h_lastseq := if h_persistent st then last (map fst (h_db st)) 0 else 0;
+       h_lastseq := if h_persistent st then last (map fst (h_db st)) 0 else N.of_nat (length (h_committed st));   (* ghost for the local transport *)
        h_index := [];
        h_subs := map (fun s => match hs_phase s with PNew | PRefused => s | _ => with_phase s PGone end) (h_subs st);
        h_acked := h_acked st; h_events := h_events st; h_gauge := 0; h_subs_total := 0; h_updates_total := 0; h_size := h_size st |}.
